@@ -1,7 +1,7 @@
 #!/bin/bash
 # Confirm (once) and run the checks against every seeded change found in /tmp/wt-*/seeded and
 # already kept under /verif/seeded. Usage: seeded_all.sh [prop ...]
-export MUT_LAB=/tmp/mutlab
+export MUT_LAB=${MUT_LAB:-/tmp/mutlab}
 # Usage: seeded_all.sh [round [prop ...]]   round 1 = /tmp/wt-Cxx (kept as <prop>-<n>), round 2 = /tmp/wt2-Cxx (<prop>-b<n>)
 round=${1:-1}; shift
 props="$@"
